@@ -113,6 +113,21 @@ fn main() {
                 }
             }
         }
+        // C11: the memory of values against the image their schema prescribes
+        "smem" => {
+            let mut n = 0u64;
+            for e in selected(&reg, &a) {
+                let cur = e.current();
+                let sb = (e.schema_bytes)(cur, 2);
+                let mut r = Rng::new(name_seed(a.seed, &e.name, 11));
+                for _ in 0..a.cases {
+                    let (sx, mem) = (e.mem_image)(&mut r, a.size);
+                    writeln!(out, "(smem {} @{} {} {} {})\t(ok holds)", hex(&sb), e.name, cur, sx, mem).unwrap();
+                    n += 1;
+                }
+            }
+            writeln!(out, "#stat smem-cases {}", n).unwrap();
+        }
         // C09/C10: calls between interface versions of the evolution families
         "abicall" => {
             let mut stats: BTreeMap<String, u64> = BTreeMap::new();
